@@ -169,8 +169,8 @@ class U:
     def assume(self, cond):
         self.c.assume(cond)
 
-    def check(self, name, cond, detail="", known=(), witness=None):
-        return self.c.check(name, cond, detail, known=known, witness=witness)
+    def check(self, name, cond, detail="", known=(), witness=None, also_as=()):
+        return self.c.check(name, cond, detail, known=known, witness=witness, also_as=also_as)
 
     def cover(self, name):
         self.c.cover(name)
